@@ -49,6 +49,7 @@ Proof.
   apply bind_ok in E. destruct E as (s1 & Hc & E).
   assert (Hlim : staking + energy < usize_lim \/ True) by (right; exact I). clear Hlim.
   unfold try_create_tickets in Hc.
+  apply bind_ok in Hc. destruct Hc as (u0 & Hpos0 & Hc). apply require_ok' in Hpos0. apply N.ltb_lt in Hpos0.
   apply bind_ok in Hc. destruct Hc as (u3 & Hr & Hc). apply require_ok' in Hr.
   assert (Hnone : range s buyer = None) by (destruct (range s buyer); [discriminate|reflexivity]).
   apply bind_ok in Hc. destruct Hc as (m & _ & Hc). apply bind_ok in Hc. destruct Hc as (u4 & _ & Hc).
@@ -144,6 +145,7 @@ Proof.
   apply bind_ok in E. destruct E as (u3 & _ & E).
   apply bind_ok in E. destruct E as (s1 & Hc & E).
   unfold try_create_tickets in Hc.
+  apply bind_ok in Hc. destruct Hc as (u0 & _ & Hc).
   apply bind_ok in Hc. destruct Hc as (u4 & Hr & Hc). apply require_ok' in Hr.
   assert (Hnone : range s buyer = None) by (destruct (range s buyer); [discriminate|reflexivity]).
   apply bind_ok in Hc. destruct Hc as (m & _ & Hc). apply bind_ok in Hc. destruct Hc as (u5 & _ & Hc).
